@@ -504,6 +504,10 @@ func init() {
 	// tcp / tls+tcp / ws / wss listeners, then every socket is closed and no
 	// goroutine may be left executing library code (W.realCensus)
 	register(&Scenario{Name: "close-real-transports", Prop: "C10", Engine: "R", Weight: 1, Run: c16Real})
+	// the same inside the simulation (real tcp / ws / tls+tcp / wss listeners,
+	// crypto/tls, net/http, gorilla on the simulated network): hostile and
+	// vanishing peers, then every socket closed and the census
+	register(&Scenario{Name: "close-after-hostile-peers-sim", Prop: "C10", Horizon: time.Hour, Weight: 40, Run: c16Real})
 	// C14's last clause ("after the dialer or its socket is closed no new
 	// connection attempt is started ... for Close at any phase") is decided by
 	// the same runs: the close races Dial / NewDialer / redial timers, and the
